@@ -250,6 +250,8 @@ def prove(pc, goal, timeout_ms, cross=False, light=False, inputs=None):
     # for minutes, and for an hour on a loaded machine); the fresh-process stages (hard kill) carry these obligations
     nl = _nonlinear(g)
     RL = RLIMIT_PER_MS // 8 if nl else RLIMIT_PER_MS
+    if nl:
+        timeout_ms = min(timeout_ms, 30000)      # also in the thorough tier: longer nlsat runs in process were never seen to help
 
     def attempt(ms, wall=None):
         so_ = z3.Solver()
@@ -303,7 +305,7 @@ def prove(pc, goal, timeout_ms, cross=False, light=False, inputs=None):
         # the same query in a FRESH solver process (z3 5.1 command line on the exported SMT-LIB text): the in-process
         # context has accumulated the terms of the whole exploration, and queries that take 0.2 s in a clean context were
         # seen to need minutes (or time out) there
-        res = run_z3_cli(so.to_smt2(), max(5, timeout_ms // 1000))
+        res = run_z3_cli(so.to_smt2(), max(5, timeout_ms // 1000), wall_s=(60 if nl else None))
         if res == 'unsat':
             return 'discharged', 'z3-5.1(fresh process)', time.time() - t0, None, ''
     if r == z3.unknown:
